@@ -632,6 +632,7 @@ Section Main.
              { repeat match type of E2 with context [if ?c then _ else _] => destruct c end; try discriminate E2; inversion E2; eauto. }
              destruct Hc as (lv & -> & ->). minvn E0 a s3 E3. unfold ret in E0. inversion E0; subst. cbn [to_rvalue] in H. unfold ret in H. inversion H; subst.
              cbn [visit_builtin_call] in E3.
+             match type of E3 with context [existsb ?g arguments] => destruct (existsb g arguments) end; [discriminate E3|].
              assert (Hres : operand_tdesc res = DConcrete T_VOID).
              { unfold emit_result in E3. unfold mbind at 1 in E3. unfold alloca in E3. change (tkind_eqb T_VOID T_VOID) with true in E3. cbn iota in E3.
                minvn E3 u s5 E5. unfold ret in E3. inversion E3; subst. reflexivity. }
